@@ -106,7 +106,22 @@ func runGates(tier string, seed int64, phase string) {
 			}
 		}
 	}
+	runSourcePanics(seed, langs[0])
 	swapSource(osRandReader(), "os")
+}
+
+// runSourcePanics: a source that panics inside Read (its own defect), the caller recovers, as a request handler
+// does: every accepted count still works afterwards (nothing is claimed about the aborted call itself)
+func runSourcePanics(seed int64, lang int64) {
+	for _, n := range []int64{12, 15, 18, 21, 24} {
+		maybeCutNow()
+		ps := &scriptReader{fill: newRng(seed, "gates/panic"), after: "data", script: []rstep{{K: int(n) / 2}, {K: 0, Err: "panic"}}}
+		swapSource(ps, "script")
+		recNewMnemonic(n, lang, Event{"fam": "sourcepanic"})
+		for _, m := range []int64{n, 12, 24, 13} {
+			recNewMnemonic(m, lang, Event{"fam": "aftersourcepanic"})
+		}
+	}
 }
 
 // C08 (c): the source text of the lists, parsed (not imported)
@@ -345,6 +360,8 @@ func runRobust(tier string, seed int64, phase string) {
 		recByEntropy(r.bytes(16), l, Event{"fam": "wraplang"})
 	}
 	runUniform(seed, all10, "uniform")
+	runSourcePanics(seed, 2)
+	swapSource(osRandReader(), "os")
 	// ill-formed UTF-8 inside otherwise valid sentences: as a whole token, glued to a word, inside a multi-byte word
 	for _, lang := range all10 {
 		idx := indicesOf(r.bytes(sizes[r.intn(5)]))
